@@ -19,8 +19,8 @@ ASSUMPTIONS = [
     "invalid values are drawn one clause at a time (or none); NaN/inf rates and frequencies are not drawn except NaN sample_rate (must be refused)",
 ]
 
-ALL_DT = ["f2", "f4", "f8", "c8", "c16", "i2", "i4", "i8", "u1", "b1", "g16", "G32"]
-NPDT = dict(G.DT, g16=np.longdouble, G32=np.clongdouble)
+ALL_DT = ["f2", "f4", "f8", "c8", "c16", "i2", "i4", "i8", "u1", "b1", "g16", "G32", ">f4", ">f8", ">c8", ">c16", ">i2"]
+NPDT = dict(G.DT, g16=np.longdouble, G32=np.clongdouble, **{k: np.dtype(k) for k in (">f4", ">f8", ">c8", ">c16", ">i2")})  # (byte-swapped: not native)
 
 
 def dtype_model(cls, dt):
